@@ -1274,7 +1274,7 @@ def median_absolute_percentage_error(
     else:
         check_consistent_length(y_true, horizon_weight)
         output_errors = _weighted_percentile(
-            np.abs(_percentage_error(y_pred, y_true, symmetric=symmetric)),
+            np.abs(_percentage_error(y_true, y_pred, symmetric=symmetric)),
             sample_weight=horizon_weight,
         )
 
